@@ -219,13 +219,15 @@ impl Account {
 			}
 			let ct_hash = hash_contacts(&self.contacts);
 			let key_hash = hash_key(&self.current_key)?;
-			let contacts_changed = ct_hash != acc_ep.contacts_hash;
 			let key_changed = key_hash != acc_ep.key_hash;
-			if contacts_changed {
-				update_account_contacts(endpoint, self).await?;
-			}
+			// The key roll-over comes first: any other request is signed with
+			// the current key, which the endpoint does not know yet.
 			if key_changed {
 				update_account_key(endpoint, self).await?;
+			}
+			let contacts_changed = ct_hash != self.get_endpoint(&endpoint.name)?.contacts_hash;
+			if contacts_changed {
+				update_account_contacts(endpoint, self).await?;
 			}
 		} else {
 			register_account(endpoint, self).await?;
